@@ -36,7 +36,9 @@ RULE = ("well-formed multi-channel sequences (<=8 notes, ticks<200) x n in {belo
         "channel 0..15; cutoff also on lists whose same-tick messages are stored in random order; all four operations and the default call "
         "scale(k) through the Sequence wrapper from every wrapper state (rel, abs, both, stale-rel, stale-abs, churned, an absolute list given "
         "or entered message by message with shuffled ties), both views read off the object itself in either order; "
-        "non-trivial = at least one note and for cutoff a note longer than m")
+        "HISTORIES of two to four of the operations on one object with nothing in between (pad -> scale, pad -> set_channel -> scale, scale -> pad, "
+        "cutoff -> pad -> scale, ...; paddings of several whole notes beyond the duration, k >= 2), judged against the composition of the plain-data "
+        "expectations; non-trivial = at least one note and for cutoff a note longer than m")
 ASSUMPTIONS = ["models: SCoda.pad, SCoda.cutoff, SCoda.scaleRel, SCoda.setChannel, tied by correspondence"]
 
 
@@ -284,8 +286,134 @@ def o_wrapper(inp):
     return fails
 
 
+WHOLE_NOTE = 4 * 24        # four quarter notes at the library's 24 ticks per quarter note (settings.PPQN), written down here on purpose
+HISTORY_OPS = ("pad", "scale", "channel", "cutoff")
+
+
+def compose_step(op, args, timed, dur, has_cap):
+    """the property text's effect of ONE operation on plain content (timed events, duration, does the content end in a rest): what the
+    single-operation clauses of `o_wrapper` expect, as a function so that it can be composed along a history.  None = outside the text's domain
+    (cut-off on ill-formed notes / r not in 1..m)"""
+    if op == "pad":
+        return timed, max(dur, args[0]), has_cap or args[0] > dur
+    if op == "scale":
+        return [(t * args[0], m) for t, m in timed], dur * args[0], has_cap
+    if op == "channel":
+        return [(t, (m[0], args[0]) + tuple(m[2:])) for t, m in timed], dur, has_cap
+    if op == "cutoff":
+        m_, r = args
+        canon = sorted(timed, key=lambda x: (x[0], x[1][1], x[1][0], -1 if x[1][3] is None else x[1][3]))
+        if wf_violations(canon) or any(on >= off for (_, _, on, off, _) in notes_of(canon)) or not (1 <= r <= m_):
+            return None
+        _, out = cutoff_expect(canon, m_, r)
+        return out, max([t for t, _ in out] + ([dur] if has_cap else []) + [0]), has_cap
+    return None
+
+
+def run_step(s, op, args):
+    if op == "pad":
+        s.pad(args[0])
+    elif op == "scale":
+        s.scale(args[0], quantise_afterwards=False)
+    elif op == "channel":
+        s.set_channel(args[0])
+    elif op == "cutoff":
+        s.cutoff(args[0], args[1])
+    else:
+        raise ValueError(op)
+
+
+def o_wrapper_history(inp):
+    """OBJECT HISTORIES (seeded change C18_agent8): two to four of the property's operations one after the other on the SAME Sequence, nothing
+    else in between (no read, no copy: whatever the first operation left inside the object is what the second one works on), then both views of
+    the object itself, read directly in either order.  Expected: the composition of the plain-data expectations of the single operations
+    (`compose_step`), from the generator's plain data."""
+    steps = [(st[0], list(st[1])) for st in inp["steps"]]
+    if not steps or any(op not in HISTORY_OPS for op, _ in steps):
+        return [("~skip:unknown-op", "")]
+    label = " -> ".join(f"{op}{args}" for op, args in steps)
+    fails = []
+    for order in ("abs-first", "rel-first"):
+        try:
+            s, tin, din, rel = _build(inp)
+        except Exception as e:
+            return [("~skip:state-not-constructible", f"{type(e).__name__}")]
+        has_cap = (inp.get("abs") is not None and any(m[0] == INTERNAL for m in inp["abs"])) or \
+                  (inp.get("abs") is None and len(rel) > 0 and rel[-1][0] == WAIT)
+        # a cap that is not BEYOND the last event (an INTERNAL message on the tick of the last event, a trailing wait of 0) is no trailing rest: it
+        # survives in the absolute view as long as that view is not re-derived from the relative one, and the text says nothing about the duration
+        # after a cut-off — either reading of it is accepted (found on the unchanged tree: pad(175) -> cutoff(1, 1) on a list capped on its last tick)
+        caps = [True, False] if has_cap and din <= max([t for t, _ in tin] + [0]) else [has_cap]
+        exps = []
+        for cap in caps:
+            exp = (tin, din, cap)
+            for op, args in steps:
+                exp = compose_step(op, args, *exp)
+                if exp is None:
+                    return [("~skip:outside-domain", "")]
+            exps.append(exp)
+        exp_t, exp_ds = exps[0][0], sorted({e[1] for e in exps})
+        try:
+            for op, args in steps:
+                run_step(s, op, args)
+        except Exception as e:
+            return [("history-raises", f"{label} from state {inp['state']}: {type(e).__name__}: {e}")]
+        views = {}
+        try:
+            for view in (("abs", "rel") if order == "abs-first" else ("rel", "abs")):
+                if view == "abs":
+                    msgs = [from_real(m) for m in s.abs._messages]
+                    views["abs"] = abs_timed(msgs) + (msgs,)
+                else:
+                    msgs = [from_real(m) for m in s.rel._messages]
+                    views["rel"] = rel_timed(msgs) + (msgs,)
+        except Exception as e:
+            return [("history-raises", f"reading after {label} from state {inp['state']}: {type(e).__name__}: {e}")]
+        for view in ("abs", "rel"):
+            got_t, got_d, msgs = views[view]
+            if _events(got_t) != _events(exp_t):
+                fails.append(("history-events", _with_obs(f"{label} from state '{inp['state']}': the {view} view (read {order}) does not show the composed "
+                                                          f"effect: expected {_events(exp_t)[:8]}, got {_events(got_t)[:8]}", _events(got_t))))
+            if got_d not in exp_ds:
+                fails.append(("history-duration", f"{label} from state '{inp['state']}': duration {got_d} through the {view} view (read {order}), "
+                                                  f"expected {' or '.join(map(str, exp_ds))}"))
+            if not all_int_times(msgs):
+                fails.append(("history-int", f"{label} from state '{inp['state']}': non-integer tick in the {view} view"))
+        if fails:
+            break
+    return fails
+
+
+HISTORY_SHAPES = [("pad", "scale"), ("pad", "scale"), ("pad", "channel", "scale"), ("scale", "pad"), ("cutoff", "pad", "scale"), ("pad", "pad", "scale"),
+                  ("channel", "pad", "scale"), ("scale", "pad", "scale"), ("pad", "cutoff"), ("pad", "scale", "cutoff"), ("pad", "scale", "pad"),
+                  ("cutoff", "scale"), ("pad", "channel"), ("pad", "scale", "channel", "scale")]
+
+
+def gen_history_steps(rng, timed, dur, has_cap):
+    """2-4 operations with concrete arguments; the paddings reach SEVERAL WHOLE NOTES beyond the duration the content has at that point of the
+    history (tracked on plain data with `compose_step`), the scalings are by k >= 2 most of the time"""
+    steps, cur = [], (timed, dur, has_cap)
+    for op in rng.choice(HISTORY_SHAPES):
+        d = cur[1]
+        if op == "pad":
+            args = [rng.choice([d + rng.randint(2, 4) * WHOLE_NOTE + rng.choice([0, 0, 1, 30, 95]), d + rng.randint(2, 4) * WHOLE_NOTE,
+                                d + WHOLE_NOTE + rng.randint(0, 95), d + rng.randint(1, 400), max(0, d - 1), d])]
+        elif op == "scale":
+            args = [rng.choice([2, 2, 3, 3, 4, 8, 1])]
+        elif op == "channel":
+            args = [rng.randrange(16)]
+        else:
+            m_ = rng.choice([1, 5, 12, 24, 40])
+            args = [m_, rng.randint(1, m_)]
+        steps.append([op, args])
+        nxt = compose_step(op, args, *cur)
+        cur = nxt if nxt is not None else cur
+    return steps
+
+
 def setup(ctx):
     ctx.oracle("wrapper", o_wrapper)
+    ctx.oracle("wrapper-history", o_wrapper_history)
     ctx.oracle("pad", o_pad)
     ctx.oracle("cutoff", o_cutoff)
     ctx.oracle("scale", o_scale)
@@ -416,6 +544,20 @@ def generate(ctx):
             if op == "cutoff":
                 ctx.case(("wrapper-cutoff", inp.get("abs", inp.get("rel")), m2, r2, state), True)
             ctx.check("wrapper", inp)
+        # two to four operations on ONE object, nothing in between (seeded change C18_agent8): pad -> scale, pad -> set_channel -> scale, ...
+        state = rng.choice(WRAP_STATES)
+        if state.startswith("abs-"):
+            hin = {"abs": a2, "state": state}
+            t0, d0 = abs_timed(_canon(a2))
+            cap0 = any(m[0] == INTERNAL for m in a2)
+        else:
+            hin = {"rel": rel, "state": state}
+            t0, d0 = rel_timed(rel)
+            cap0 = len(rel) > 0 and rel[-1][0] == WAIT
+        hin["steps"] = gen_history_steps(rng, t0, d0, cap0)
+        ctx.count("wrapper-history:" + "->".join(st[0] for st in hin["steps"]))
+        ctx.count("wrapper-history")
+        ctx.check("wrapper-history", hin)
         ctx.sample({"pad": n, "cutoff": [m_, r], "scale": k, "channel": c, "rel": rel[:6]})
     # complete table on a fixed content: every operation from every wrapper state
     base = G.notes_to_abs([(5, 60, 0, 30, 64), (5, 62, 24, 12, 80), (5, 60, 30, 6, 70)], extra=[G.pm(TIMESIG, 5, 0, num=3, den=4), G.pm(CC, 5, 24, vel=0, ctl=7)], cap=50)
@@ -428,6 +570,15 @@ def generate(ctx):
                 ctx.check("wrapper", {"abs": base_sh, "op": op, "args": args, "state": state})
             else:
                 ctx.check("wrapper", {"rel": G.abs_to_rel(base), "op": op, "args": args, "state": state})
+    for state in WRAP_STATES:
+        for steps in ([["pad", [50 + 2 * WHOLE_NOTE]], ["scale", [2]]], [["pad", [50 + 3 * WHOLE_NOTE + 30]], ["channel", [9]], ["scale", [3]]],
+                      [["scale", [2]], ["pad", [100 + 2 * WHOLE_NOTE + 1]]], [["cutoff", [10, 4]], ["pad", [50 + 4 * WHOLE_NOTE]], ["scale", [2]]],
+                      [["pad", [50 + WHOLE_NOTE + 30]], ["scale", [2]]], [["pad", [300]], ["cutoff", [10, 4]], ["scale", [2]]]):
+            ctx.count("wrapper-history-table")
+            if state.startswith("abs-"):
+                ctx.check("wrapper-history", {"abs": base_sh, "state": state, "steps": steps})
+            else:
+                ctx.check("wrapper-history", {"rel": G.abs_to_rel(base), "state": state, "steps": steps})
     # exhaustive small scope: every relative list of <= 2 (quick) / <= 3 (thorough) messages x a few arguments
     for rel in G.enum_rel(3 if ctx.thorough else 2):
         ctx.count("small-scope")
